@@ -21,9 +21,9 @@ class ClasswiseSubsetWrapper(KDSubset):
             # create indices from start/end index
             assert start_index is None or isinstance(start_index, int)
             assert end_index is None or isinstance(end_index, int)
-            end_index = end_index or len(dataset)
+            end_index = end_index if end_index is not None else len(dataset)
             end_index = min(end_index, len(dataset))
-            start_index = start_index or 0
+            start_index = start_index if start_index is not None else 0
             assert start_index <= end_index
             for i in range(dataset.getdim_class()):
                 if check_enough_samples:
@@ -38,8 +38,8 @@ class ClasswiseSubsetWrapper(KDSubset):
             assert start_percent is not None or end_percent is not None
             assert start_percent is None or (isinstance(start_percent, (float, int)) and 0. <= start_percent <= 1.)
             assert end_percent is None or (isinstance(end_percent, (float, int)) and 0. <= end_percent <= 1.)
-            start_percent = start_percent or 0.
-            end_percent = end_percent or 1.
+            start_percent = start_percent if start_percent is not None else 0.
+            end_percent = end_percent if end_percent is not None else 1.
             assert start_percent <= end_percent
             for i in range(dataset.getdim_class()):
                 start_index = int(start_percent * counts[i])
